@@ -505,6 +505,14 @@ def run(ctx, args):
             raise RuntimeError("modeld_c08 died: %d/%d\n%s" % (len(out), len(lines), err[-2000:]))
         return out
 
+    # which descriptor alignment table does the working tree have?  (fixes/C08-1.diff makes the 8-byte kinds follow the
+    # data layout; the model has both tables: `q` = hand-written constants, `qf` = repaired table)
+    probe = decode(real(["q linux/386 i64"])[0], True)
+    fixed_table = probe is not None and probe["c"][1] == 4
+    QM, MBM = ("qf", "mbf") if fixed_table else ("q", "mb")
+    ctx.log("descriptor alignment table of the working tree:", "repaired (fixes/C08-1)" if fixed_table else "hand-written constants (8 for 8-byte kinds)")
+    ctx.coverage["descriptor_table_variant"] = "fixed" if fixed_table else "original"
+
     # ---- 0. the target records of the model against the real data layouts / base sizes
     dls = real(["dl " + rt for rt, _ in TARGETS])
     mts = model(["tg " + mt for _, mt in TARGETS])
@@ -555,10 +563,10 @@ def run(ctx, args):
     for t in terms:
         s = show(t)
         for rt, mt in TARGETS:
-            lr.append("q %s %s" % (rt, s)); lm.append("q %s %s" % (mt, s)); meta.append((mt, t, None))
+            lr.append("q %s %s" % (rt, s)); lm.append("%s %s %s" % (QM, mt, s)); meta.append((mt, t, None))
     for k, v in maps:
         for rt, mt in TARGETS:
-            lr.append("mb %s %s %s" % (rt, show(k), show(v))); lm.append("mb %s %s %s" % (mt, show(k), show(v))); meta.append((mt, k, v))
+            lr.append("mb %s %s %s" % (rt, show(k), show(v))); lm.append("%s %s %s %s" % (MBM, mt, show(k), show(v))); meta.append((mt, k, v))
     ctx.log("asking real code and model: %d requests" % len(lr))
     ro = real(lr)
     mo = model(lm)
@@ -678,7 +686,7 @@ def run(ctx, args):
                 sts.append(t)
         rng.shuffle(sts)
         pick = [parse(s) for s in ["T(i8,i64)", "T(i8,F,i64)", "T(i64,T())", "T(b,F,b)", "T(i32,T(),T())", "T(A(3,F),i8)", "T(T(i32,i8),i8)"]] + sts[:n_e2e]
-        mlines = model(["q amd64 " + show(t) for t in pick])
+        mlines = model([QM + " amd64 " + show(t) for t in pick])
         res, rc, tail = run_e2e(ctx, pick, mlines)
         ctx.log("end-to-end program ran: %d of %d structs answered, rc %s" % (len(res), len(pick), rc))
         e2e_stats["structs"] = len(pick)
@@ -743,7 +751,8 @@ def run(ctx, args):
         ctx.report_broken("Props/C08: " + ", ".join(n for n, s in st.items() if s != "ok"), st)
 
     nontrivial = set(show(t) for t in terms if len(layout_subterms(t, [])) >= 3)
-    ctx.coverage["samples"] = [{"request": lr[0], "real": ro[0], "model": mo[0]},
+    si = lr.index("q linux/arm T(i8,i64)") if "q linux/arm T(i8,i64)" in lr else 0
+    ctx.coverage["samples"] = [{"request": lr[si], "real": ro[si], "model": mo[si]},
                                {"request": lr[len(lr) // 2], "real": ro[len(lr) // 2], "model": mo[len(lr) // 2]},
                                {"c-compatible": show(cterms[0]), "gcc": gl[0], "real": creal[0], "model": cmodel[0]}]
     ctx.coverage["trusted_base"] += [
